@@ -121,6 +121,8 @@ package wire
 //@   ensures result == nil ==> len(p.consumers) == old(len(p.consumers)) + 1 && p.consumers[old(len(p.consumers))].consumer == c && p.consumers[old(len(p.consumers))].predicate == predicate &&
 //@           forall k int :: 0 <= k && k < old(len(p.consumers)) ==> p.consumers[k].consumer == old(p.consumers[k].consumer) && p.consumers[k].predicate == old(p.consumers[k].predicate)
 //@   ensures result != nil ==> len(p.consumers) == old(len(p.consumers))
+// a refused subscription takes nothing out of the cache (no cached envelope is lost to a consumer that was not subscribed)
+//@   ensures result != nil ==> len(p.cache.msgs) == old(len(p.cache.msgs)) && forall k int :: 0 <= k && k < len(p.cache.msgs) ==> p.cache.msgs[k] == old(p.cache.msgs[k])
 //@   loop 1
 //@     invariant forall k int :: 0 <= k && k < $i ==> p.consumers[k].consumer != c
 
